@@ -569,7 +569,11 @@ func (tree *Rtree) nearestNeighbors(k int, p geom.Point, n *node,
 		}
 	} else {
 		branches, branchDists := sortEntries(p, n.entries)
-		branches = pruneEntries(p, branches, branchDists)
+		if k == 1 {
+			// MINMAXDIST pruning only guarantees that the single nearest
+			// object survives; for k > 1 it can discard the other neighbours.
+			branches = pruneEntries(p, branches, branchDists)
+		}
 		for _, e := range branches {
 			nearest, dists = tree.nearestNeighbors(k, p, e.child, dists, nearest)
 		}
